@@ -74,6 +74,12 @@ TARGETS = [
     ("src/internal/stringpool.rs", "StringPoolBuilder", "build_from_data", "readers"),
     ("src/internal/value.rs", "ValueRef", "to_value", "pool"),
     ("src/internal/value.rs", "ValueRef", "remove", "pool"),
+    ("src/internal/category.rs", "Category", "validate", "category"),
+    ("src/internal/summary.rs", "SummaryInfo", "read", "readers"),
+    ("src/internal/summary.rs", "SummaryInfo", "new", "propset"),
+    ("src/internal/summary.rs", "SummaryInfo", "uuid", "propset"),
+    ("src/internal/summary.rs", "SummaryInfo", "set_uuid", "propset"),
+    ("src/internal/propset.rs", "PropertySet", "write", "serial"),
 ]
 
 OPS = [
